@@ -52,6 +52,7 @@ def main(tier):
     chk.run("R-CHOICETYPE", B.choicetype, cx.repo, cx.cpp, floor=2)
     chk.run("R-STORAGEIFACE", C.storageiface, cx.cpp, cx.templates, floor=12)
     chk.run("R-PARAMVIS", B.paramvis, cx.repo, cx.templates, floor=1)
+    chk.run("R-CROSSFRIEND", B.crossfriend, cx.repo, cx.templates, floor=5)
     chk.run("R-RESUBREPL", B.resubrepl, cx.repo, floor=3)
     chk.run("R-ELEMSTORAGE", B.elemstorage, cx.repo, cx.cpp, floor=2)
     chk.run("R-ENUMUNIQUE", B.enumunique, cx.repo, floor=2)
